@@ -479,6 +479,11 @@ RDV_POLICIES = [{'kind': 'rdv', 'est': 25, 'burst': 60, 'alt': 1.0, 'rounds': 2}
                 {'kind': 'rdv', 'est': 60, 'burst': 400, 'alt': 0.6, 'rounds': 3},
                 {'kind': 'rdv', 'est': 150, 'burst': 2000, 'alt': 1.0, 'rounds': 2}]
 POLICIES += RDV_POLICIES[:2]
+RACE_POLICIES = [{'kind': 'rdv', 'est': 12, 'burst': 30000, 'alt': 1.0, 'rounds': 1},
+                 {'kind': 'rdv', 'est': 25, 'burst': 30000, 'alt': 1.0, 'rounds': 1},
+                 {'kind': 'rdv', 'est': 25, 'burst': 200, 'alt': 1.0, 'rounds': 4},
+                 {'kind': 'rdv', 'est': 40, 'burst': 2000, 'alt': 0.7, 'rounds': 2},
+                 {'kind': 'pcta', 'k': 1, 'est': 30}, {'kind': 'pcta', 'k': 2, 'est': 60}, {'kind': 'pcta', 'k': 1, 'est': 45}]
 TWIN_POLICIES += RDV_POLICIES * 2
 
 
@@ -568,6 +573,12 @@ def gen_trace(rng, tier='quick', crit_names=(), arm=None, targets=()):
             pools[i].sets, pools[i].perms = pools[0].sets, pools[0].perms
 
     n_callers = rng.choices([1, 2, 3, 4], weights=[0.3, 0.35, 0.25, 0.1])[0]
+    # race arm: two or three callers run (differently permuted) copies of one very short program, so that their
+    # *first* calls of an operator collide; a wrapper or registered functions make name-keyed state observable;
+    # the schedule is a rendezvous followed by a long lockstep.  Short runs: many of them per second.
+    race = arm is None and rng.random() < 0.18 and not any(a.get('graded') or a.get('name') for a in algebras)
+    if race:
+        n_callers = rng.choice([2, 2, 3])
     ctx = dict(
         valkind=rng.choices(['int', 'Fraction', 'float', 'mixed', 'nd'], weights=[0.46, 0.14, 0.14, 0.14, 0.12])[0],
         p_sym=rng.choice([0, 0, 0.1, 0.25]),
@@ -588,7 +599,7 @@ def gen_trace(rng, tier='quick', crit_names=(), arm=None, targets=()):
     # mirror arm: the same operations, operand for operand, on two algebras of equal dimension and
     # different signature, drawn from the whole operator alphabet (cross-algebra leaks)
     mirror_with = None
-    if len(algebras) >= 2 and rng.random() < 0.4:
+    if len(algebras) >= 2 and rng.random() < 0.4 and not race:
         same = [j for j in range(1, len(algebras)) if dim_of(algebras[j]) == dim_of(algebras[0])
                 and not algebras[j].get('graded') and not algebras[0].get('graded')
                 and not algebras[j].get('name') and not algebras[0].get('name')]
@@ -626,7 +637,7 @@ def gen_trace(rng, tier='quick', crit_names=(), arm=None, targets=()):
     callers = []
     p_chain = rng.choice([0, 0, 0.1, 0.25])
     for c in range(n_callers):
-        n_ops = rng.randint(3, 10 if not big else 5)
+        n_ops = rng.randint(3, 10 if not big else 5) if not race else rng.randint(1, 3)
         prog = []
         for _ in range(n_ops):
             ai = rng.randrange(len(algebras)) if rng.random() < 0.7 else 0
@@ -713,7 +724,19 @@ def gen_trace(rng, tier='quick', crit_names=(), arm=None, targets=()):
                 mirrored.append(m)
             callers[c] = (first + mirrored) if rng.random() < 0.5 else (mirrored + first)
     twins = False
-    if mirror_with is None and n_callers >= 2 and rng.random() < 0.3 and not any(a.get('graded') for a in algebras):
+    if race:
+        twins = True
+        revisit = rng.random() < 0.5
+        if revisit:
+            # the caller itself revisits its first call with the operands' keys in another order
+            callers[0] = callers[0] + twin_of(rng, callers[0][:1], algebras[:1], pools[:1])
+        exact = rng.random() < (0.6 if revisit else 0.2)
+        for c in range(1, n_callers):
+            # exact copies (the same ordered key patterns at the same time) or permuted ones
+            callers[c] = _copy.deepcopy(callers[0]) if exact else twin_of(rng, callers[0], algebras, pools)
+        if rng.random() < 0.7:
+            algebras[0]['wrapper'] = rng.choice(['stub', 'stub', 'ident', 'opaque'])
+    elif mirror_with is None and n_callers >= 2 and rng.random() < 0.3 and not any(a.get('graded') for a in algebras):
         twins = True
         callers[1] = twin_of(rng, callers[0], algebras, pools)
         if rng.random() < 0.5:
@@ -763,6 +786,8 @@ def gen_trace(rng, tier='quick', crit_names=(), arm=None, targets=()):
                  instr_poly=rng.random() < 0.15,
                  hold_refs=rng.random() < 0.5)
     policy = {'kind': 'seq'} if n_callers == 1 else dict(rng.choice(TWIN_POLICIES if twins else POLICIES))
+    if race:
+        policy = dict(rng.choice(RACE_POLICIES))
     world['twins'] = twins
     return dict(property='C09', world=world, callers=callers, faults=faults, policy=policy, schedule=None,
                 sched_seed=rng.getrandbits(48))
